@@ -14,7 +14,7 @@ import (
 
 func init() {
 	register(&Property{ID: "C01", Run: runC01, Meta: report.Meta{ID: "C01",
-		Explanation: "DECIDED (for all grammars and inputs at once): four structural lemmas the Frost-Hafiz-Callaghan argument relies on, each a necessary condition of 'every derivation is returned' — R01a no combinator writes into the backing array of an alternative list it did not allocate (two consumers of one cached list cannot overwrite each other's alternatives); R01b the curtailing set of every nested parser call reaches the curtailing set returned to the caller (so Memoize above it stores a result with the full context it depends on); R01c the left-recursion context and the merge flag are reset only behind a guard proving progress of the position (shared with C02); R01d a cached result is reused only where at least as much recursion was allowed: the stored context keeps the incoming counters of (at least) the wrapped call's curtailing parsers, what is stored/replayed are the wrapped call's own results, and ResultCache.Get — decided over its enumerated paths, whatever the loop looks like — ends in a hit only where the entry was found, every key of the stored context was visited and no stored count exceeded the current one, and in a miss only where there was no entry or some count did exceed; R01f the length predicates of SeqOf/SeqTry/SeqFirstOrAll/Many are the documented ones (folded over small lengths) and the count they capture is len() of the parser list.; R01g Optional returns, on every path, the wrapped parser's alternatives together with the empty match. NOT DECIDED: soundness and completeness of the returned trees as a whole, first-match / longest-path semantics of Choice/Many/SepBy (run-time values).",
+		Explanation: "DECIDED (for all grammars and inputs at once): four structural lemmas the Frost-Hafiz-Callaghan argument relies on, each a necessary condition of 'every derivation is returned' — R01a no combinator writes into the backing array of an alternative list it did not allocate (two consumers of one cached list cannot overwrite each other's alternatives); R01b the curtailing set of every nested parser call reaches the curtailing set returned to the caller (so Memoize above it stores a result with the full context it depends on); R01c the left-recursion context and the merge flag are reset only behind a guard proving progress of the position (shared with C02); R01d a cached result is reused only where at least as much recursion was allowed: the stored context keeps the incoming counters of (at least) the wrapped call's curtailing parsers, what is stored/replayed are the wrapped call's own results, and ResultCache.Get — decided over its enumerated paths, whatever the loop looks like — ends in a hit only where the entry was found, every key of the stored context was visited and no stored count exceeded the current one, and in a miss only where there was no entry or some count did exceed; R01f the length predicates of SeqOf/SeqTry/SeqFirstOrAll/Many are the documented ones (folded over small lengths) and the count they capture is len() of the parser list.; R01h SepBy alternates value and separator by index parity and accepts exactly the empty (if allowed) and odd-length chains; R01g Optional returns, on every path, the wrapped parser's alternatives together with the empty match. NOT DECIDED: soundness and completeness of the returned trees as a whole, first-match / longest-path semantics of Choice/Many/SepBy (run-time values).",
 		Assumptions: commonAssumptions, TrustedBase: commonTrusted}})
 }
 
